@@ -185,3 +185,26 @@ PROPS["C07"] = dict(
     unproved=["first-pass tiling (offsets i*seg in order) and 'a NAK is answered with exactly the requested in-file part': checked by the send engine oracles (tiling, nak_answer) on the implementation",
               "EOF states the true size and checksum; every PDU carries the transaction's ids/mode/direction and dataLen = payload length: send engine oracles (meta_eof, header) + byte-exact correspondence"],
 )
+
+PROPS["C19"] = dict(
+    title="Suspend really suspends; resume picks up and completes",
+    module="Cfdp.Props.C19",
+    namespace="Cfdp.Loop",
+    theorems=["C19_send_quiet", "C19_send_no_timer_fault", "C19_send_permit_ignored", "C19_send_resume",
+              "C19_recv_quiet", "C19_recv_no_timer_fault", "C19_recv_suspend", "C19_recv_resume", "C19_send_run_quiet"],
+    engines=["send", "recv"],
+    design="§6 C19",
+    technique="Lean 4 proofs over the sender/receiver models and the task-loop step (gating of the send/timeout branches) + differential correspondence",
+    level_text=("Kernel-checked over the models of both transactions and of one task-loop iteration: in the Suspended state has_pdu_to_send is false and "
+                "until_timeout is infinite, so for every event the loop can see (peer PDU, send permit, timer wake-up after any time, report, prompt) "
+                "no PDU of any kind is transmitted (C19_*_quiet), a wake-up declares no fault and changes nothing (C19_*_no_timer_fault), and this holds for a "
+                "whole stretch of events as long as the state stays Suspended (C19_send_run_quiet); suspend pauses all counters; resume makes the "
+                "transaction Active with the inactivity count at 0 counting from the resume instant and leaves queue, cursor, progress, EOF, segments, "
+                "metadata and staging file untouched (C19_*_resume). The gating is exactly what the pinned tree lacked (findings F17, F22). "
+                "Tie to the code: send and recv engines with suspend/resume injected at random points and arbitrary suspension lengths; oracles quiet / fault_while_suspended."),
+    level_note=RECV_SEND_NOTE + " The completion-after-resume sentence of the property is C02's liveness and is not a theorem here.",
+    rule=("send + recv engines (see C07/C04): about one history in nine contains suspend, time passing (0 to 30 s), timeouts, send attempts, resume; "
+          "fault handlers that suspend (8:s, 1:s, 7:s) make suspension by fault frequent. Non-trivial = a PDU was emitted or an indication raised."),
+    assumptions=["the loop consults has_pdu_to_send()/until_timeout() before every iteration (lib.rs select! guards), as modelled in Model/Loop.lean"],
+    unproved=["after resume the transfer completes exactly as an unsuspended one (liveness, = C02)"],
+)
